@@ -1,4 +1,3 @@
-use std::cmp::max;
 use std::fmt;
 
 use crate::common::position::{CaretPos, Position};
@@ -12,9 +11,9 @@ pub struct Lex {
 impl Lex {
     pub fn new(start: CaretPos, token: Token) -> Self {
         let end = if let Token::Str(_str, _) = &token {
-            start.offset_line(max((_str.lines().count() as i32 - 1) as usize, 0))
+            start.offset_line(_str.matches('\n').count())
         } else if let Token::DocStr(_str) = &token {
-            start.offset_line(max((_str.lines().count() as i32 - 1) as usize, 0))
+            start.offset_line(_str.matches('\n').count())
         } else {
             start
         };
